@@ -26,6 +26,6 @@ CHECKS['C11'] = dict(
                        _c11_runs(dict(small_only=1, devmask=2, pairstride=1), 16, groups=('pairs',)) +
                        [dict(tu='c11_libfmt', group='png', bounds=dict(devmask=7, name_all=1), shards=5), dict(tu='c11_libfmt', group='jpeg', bounds=dict(devmask=7, name_all=1), shards=4),
                         dict(tu='c11_libfmt', group='tiff', bounds=dict(devmask=7, name_all=1), shards=4)]),
-    witnesses_required=dict(all=['jpeg_four_component_seed', 'jpeg_seed_with_trailing_bytes', 'truncations', 'field_deviations', 'byte_deviations', 'rejected_with_exception', 'returned_normally']),
+    witnesses_required=dict(all=['undersized_view_with_region_settings', 'jpeg_four_component_seed', 'jpeg_seed_with_trailing_bytes', 'truncations', 'field_deviations', 'byte_deviations', 'rejected_with_exception', 'returned_normally']),
     deadline=dict(quick=1200, thorough=7200),
 )
